@@ -2,13 +2,17 @@
    Property theorems only; proofs live in lib/EventualProofs.v and lib/PromiseProofs.v.
    All statements are about the models instantiated with the shape facts and constants
    translated from eventual.py / promise.py (src_cfg, src_pcfg). *)
-From Coq Require Import ZArith List Bool.
+From Coq Require Import ZArith List Bool Permutation.
 Import ListNotations.
-Require Import Verif.gen.EventualGen Verif.lib.Eventual Verif.lib.EventualProofs Verif.lib.Promise Verif.lib.PromiseProofs.
+Require Import Verif.gen.EventualGen Verif.lib.Eventual Verif.lib.EventualProofs Verif.lib.Promise Verif.lib.PromiseProofs
+  Verif.lib.PromiseGlobal Verif.lib.PromiseChain.
 Local Open Scope Z_scope.
 
 (* "A callable passed to the eventual-send primitive never runs before the caller returns":
-   eventually(s), at top level or from a running callable, only records s *)
+   eventually(s), at top level, from a running callable or from the callback of a flush Deferred, only records s.
+   This depends on the translated shape fact ev_append_runs_callable = false (c_append_runs src_cfg: nothing in
+   _SimpleCallQueue.append calls cb), which the model interprets: EventualProofs.ev_never_sync_needs_fact shows that
+   the dependence is real -- for a configuration whose append() calls cb the statement is false. *)
 Theorem C17_ev_never_sync : forall ctx st s,
   snd (do_act src_cfg ctx st (AEnq s)) = [Sub (sid s)] /\
   forall l, rans (snd (run_acts src_cfg ctx st l)) = [].
@@ -47,12 +51,50 @@ Print Assumptions C17_ev_scheduled.
 
 (* "the queue-flush notification fires only when the queue is empty": nothing queued, nothing of
    the running batch left, no callable executing -- also when the callbacks of earlier observers
-   enqueue work (both repairs of flush()/_turn: full strength) *)
+   enqueue work or call flushEventualQueue() again, with callbacks that do the same, nested to any
+   depth (both repairs of flush()/_turn: full strength) *)
 Theorem C17_ev_flush : forall ops st t,
   run src_cfg q0 ops = (st, t) ->
   Forall (fun e => match e with FlushFired _ n r => n = 0%nat /\ r = false | _ => True end) t.
 Proof. exact ev_flush. Qed.
 Print Assumptions C17_ev_flush.
+
+(* ... and every flush request is notified, once: for every program the deferred requests made so far
+   (FlushReq f true) are, in request order, the observers _turn has taken out of the list (FlushPop) followed
+   by those still registered -- none lost, none duplicated, first come first served --, and the notifications
+   (FlushFired) are, in order and one for one, the requests answered at once (FlushReq f false) and the
+   observers taken out of the list *)
+Theorem C17_ev_flush_accounting : forall ops st t,
+  run src_cfg q0 ops = (st, t) ->
+  fdeferred t = fpopped t ++ map fst (flushers st) /\ ffired t = fanswered t.
+Proof. exact ev_flush_accounting. Qed.
+Print Assumptions C17_ev_flush_accounting.
+
+(* ... no observer stays registered when the queue is empty between two operations (so: after a turn that
+   leaves the queue empty every deferred request made so far has been notified) *)
+Theorem C17_ev_flush_drained : forall ops st t,
+  run src_cfg q0 ops = (st, t) -> events st = [] ->
+  flushers st = [] /\ fdeferred t = fpopped t.
+Proof. exact ev_flush_drained. Qed.
+Print Assumptions C17_ev_flush_drained.
+
+(* ... a request made between two operations is answered at once (and its callback runs right there) exactly
+   when nothing is queued; otherwise it is registered behind the observers already waiting *)
+Theorem C17_ev_flush_sync_iff : forall ops st t fid cb,
+  run src_cfg q0 ops = (st, t) ->
+  (events st = [] -> exists t', snd (do_act src_cfg None st (AFlush fid cb)) = FlushReq fid false :: FlushFired fid 0%nat false :: t') /\
+  (events st <> [] -> do_act src_cfg None st (AFlush fid cb) = (set_flushers st (flushers st ++ [(fid, cb)]), [FlushReq fid true])).
+Proof. exact ev_flush_sync_iff. Qed.
+Print Assumptions C17_ev_flush_sync_iff.
+
+(* adequacy of the model of `while self._flushObservers and not self._events: ...pop(0).callback(None)`: with the
+   fuel [fire] gives it, the loop of the model stops because that condition is false (for every configuration,
+   not only the current one): no iteration of the real loop is cut off *)
+Theorem C17_ev_observer_loop_complete : forall c fuel st,
+  (obs_weight (flushers st) <= fuel)%nat ->
+  flushers (fst (fire_while c fuel st)) = [] \/ events (fst (fire_while c fuel st)) <> [].
+Proof. exact fire_while_complete. Qed.
+Print Assumptions C17_ev_observer_loop_complete.
 
 (* ------------------------------------------------------------------ Promises *)
 
@@ -95,38 +137,99 @@ Theorem C17_pr_observers_agree : forall ops s t p e1 o1,
 Proof. exact pr_observers_agree. Qed.
 Print Assumptions C17_pr_observers_agree.
 
-(* "A Promise delivers every message sent to it, in send order and exactly once, to its resolution".
-   FULL STATEMENT (not closed in Coq; checked directly on the code by oracle/delivery-order):
-     forall ops s t p, prun src_pcfg ps0 ops = (s, t) ->
-       sent_to p t = delivered_to p t ++ queued_for p (queue s) ++ pending_of s p.
-   Proved: the three local facts it follows from, given the FIFO discipline C17_ev_fifo. *)
-Theorem C17_pr_order_send_partial : forall s p pr m b wr s' e,
-  tbl s p = Some pr -> (p < next s)%nat -> send_op src_pcfg s p m b wr = (s', e) ->
-  (pending_state (pstate pr) = true -> plive pr = true ->
-     pending_of s' p = pending_of s p ++ [m] /\ queue s' = queue s) /\
-  (pending_state (pstate pr) = false ->
-     pending_of s' p = pending_of s p /\ exists mm, mid mm = m /\ queue s' = queue s ++ [TDeliver p mm]).
-Proof. exact pr_order_send_partial. Qed.
-Print Assumptions C17_pr_order_send_partial.
+(* "A Promise delivers every message sent to it, in send order and exactly once, to its resolution" -- the GLOBAL
+   statement, for every program (sends / sendOnlys before and after the resolution, re-entrant sends from inside a
+   method, observers, resolutions with values, Failures and promises, chains of promises, methods returning promises
+   or Deferreds, turns in every position) and every promise: the messages accepted for it are, AS A LIST (order and
+   multiplicity), those already handed to its resolution ++ those scheduled in the eventual-send queue ++ those still
+   held in _pendingMethods.  (That each hand-over is to the promise's one final outcome is C17_pr_observers_agree:
+   EDelivered events are among the reports it speaks about.) *)
+Theorem C17_pr_delivery_global : forall ops s t p,
+  prun src_pcfg ps0 ops = (s, t) ->
+  sent_to p t = delivered_to p t ++ queued_for p (queue s) ++ pending_of s p.
+Proof. exact pr_delivery_global. Qed.
+Print Assumptions C17_pr_delivery_global.
 
-Theorem C17_pr_order_release_partial : forall top s p pr o s' e,
-  tbl s p = Some pr -> plive pr = true -> pstate pr <> SBroken ->
-  resolve2 src_pcfg top s p o = (s', e) ->
-  e = [] /\ pending_of s' p = [] /\
-  queue s' = queue s ++ map (TDeliver p) (ppending pr) ++ map (fun wt => TCallback p wt o) (pwatch pr).
-Proof. exact pr_order_release_partial. Qed.
-Print Assumptions C17_pr_order_release_partial.
+(* ... hence, once the queue has drained and the promise is NEAR or BROKEN: delivered = sent, each once, in send order *)
+Theorem C17_pr_delivery_complete : forall ops s t p pr,
+  prun src_pcfg ps0 ops = (s, t) -> queue s = [] -> tbl s p = Some pr ->
+  (pstate pr = SNear \/ pstate pr = SBroken) -> delivered_to p t = sent_to p t.
+Proof. exact pr_delivery_complete. Qed.
+Print Assumptions C17_pr_delivery_complete.
 
-Theorem C17_pr_once_deliver_partial : forall s q' p m pr o s' e,
-  queue s = TDeliver p m :: q' -> tbl s p = Some pr -> ptarget pr = Some o ->
-  run_one src_pcfg s = (s', e) ->
-  (forall p', delivered_to p' e = if Nat.eqb p p' then [mid m] else []) /\
-  outcome_of p (hd (ESent 0 0) e) = Some o.
-Proof. exact pr_once_deliver_partial. Qed.
-Print Assumptions C17_pr_once_deliver_partial.
+(* "every past and future observer (when/_then/_except) sees that same outcome" -- the counting half: the observers
+   registered on a promise are, with multiplicity, those already told ++ those whose callback is scheduled ++ those
+   still in _watchers; nobody is told twice or dropped.  (A multiset, not a list: when() on a resolved promise
+   answers at once, possibly before observers whose callbacks are still scheduled.) *)
+Theorem C17_pr_observers_exactly_once : forall ops s t p,
+  prun src_pcfg ps0 ops = (s, t) ->
+  Permutation (observed p t ++ cb_for p (queue s) ++ watching s p) (whens p t).
+Proof. exact pr_observers_exactly_once. Qed.
+Print Assumptions C17_pr_observers_exactly_once.
+
+(* "chains of promises resolved to promises": in every reachable state each promise has exactly as many pending calls
+   of its _resolve2 (links: `Chain p` in some promise's _watchers, or its callback scheduled in the queue) as it must
+   have: one while it is CHAINED, none in any other state *)
+Theorem C17_pr_links_exact : forall ops s t p,
+  prun src_pcfg ps0 ops = (s, t) -> nlinks p s = want_links s p.
+Proof. exact pr_links_exact. Qed.
+Print Assumptions C17_pr_links_exact.
+
+(* ... so _resolve2 is never entered on a promise that is already NEAR or BROKEN: wherever a link is registered or
+   scheduled, its promise is CHAINED, unresolved and still has its lists *)
+Theorem C17_pr_link_targets_chained : forall ops s t p,
+  prun src_pcfg ps0 ops = (s, t) ->
+  ((exists q o, In (TCallback q (Chain p) o) (queue s)) \/
+   (exists q qr, tbl s q = Some qr /\ In (Chain p) (pwatch qr))) ->
+  exists pr, tbl s p = Some pr /\ pstate pr = SChained /\ plive pr = true /\ ptarget pr = None.
+Proof. exact pr_link_targets_chained. Qed.
+Print Assumptions C17_pr_link_targets_chained.
+
+(* when the link of a CHAINED promise p fires, p takes exactly the outcome o of the promise q it was resolved with
+   (q is resolved with o), and its queued messages and observers are released towards o, in order *)
+Theorem C17_pr_chain_fires_same_outcome : forall ops s t q p o q' s' e,
+  prun src_pcfg ps0 ops = (s, t) -> queue s = TCallback q (Chain p) o :: q' -> run_one src_pcfg s = (s', e) ->
+  (exists qr, tbl s q = Some qr /\ ptarget qr = Some o /\ pstate qr = match o with Val _ => SNear | Fail _ => SBroken end) /\
+  (exists pr, tbl s p = Some pr /\ pstate pr = SChained /\
+     exists pr', tbl s' p = Some pr' /\ ptarget pr' = Some o /\
+                 pstate pr' = match o with Val _ => SNear | Fail _ => SBroken end /\
+                 queue s' = q' ++ map (TDeliver p) (ppending pr) ++ map (fun wt => TCallback p wt o) (pwatch pr)) /\
+  e = [].
+Proof. exact pr_chain_fires_same_outcome. Qed.
+Print Assumptions C17_pr_chain_fires_same_outcome.
+
+(* "... and chains of promises resolved to promises": for every program, a promise p that was (acceptedly) resolved
+   with the promise q -- directly, through a method that returned q, or through a Deferred that fired with q -- and
+   that is now NEAR / BROKEN has exactly the outcome of q, which is then NEAR / BROKEN too; p is never resolved with
+   two different promises.  Chains of any length follow link by link; with C17_pr_delivery_global and
+   C17_pr_observers_agree: the messages sent to the head of a chain reach, in send order and once each, the outcome
+   of its end. *)
+Theorem C17_pr_chained_same_outcome : forall ops s t p q pp o,
+  prun src_pcfg ps0 ops = (s, t) -> In (EChained p q) t ->
+  tbl s p = Some pp -> ptarget pp = Some o -> (pstate pp = SNear \/ pstate pp = SBroken) ->
+  (exists qq, tbl s q = Some qq /\ ptarget qq = Some o /\
+              pstate qq = match o with Val _ => SNear | Fail _ => SBroken end) /\
+  pstate pp = match o with Val _ => SNear | Fail _ => SBroken end /\
+  forall q', In (EChained p q') t -> q' = q.
+Proof. exact pr_chained_same_outcome. Qed.
+Print Assumptions C17_pr_chained_same_outcome.
+
+(* the crash branches of the model (AttributeError on the deleted _pendingMethods/_watchers, _resolve2 on a resolved
+   promise, a delivery without a target) are unreachable: no program produces a crash event *)
+Theorem C17_pr_no_crash : forall ops s t p top,
+  prun src_pcfg ps0 ops = (s, t) -> ~ In (ECrash p top) t.
+Proof. exact pr_no_crash. Qed.
+Print Assumptions C17_pr_no_crash.
 
 (* observer.OneShotObserverList: every subscriber, past or future, is (eventually) sent one and the same result *)
 Theorem C17_oso_single_result : forall ops w1 r1 w2 r2,
   In (OEventually w1 r1) (snd (oso_run oso0 ops)) -> In (OEventually w2 r2) (snd (oso_run oso0 ops)) -> r1 = r2.
 Proof. exact oso_single_result. Qed.
 Print Assumptions C17_oso_single_result.
+
+(* ... and exactly once, in subscription order, whatever the interleaving of whenFired() and fire():
+   told ++ still waiting = asked (lists) *)
+Theorem C17_oso_exactly_once : forall ops,
+  oso_told (snd (oso_run oso0 ops)) ++ o_watchers (fst (oso_run oso0 ops)) = oso_asked ops.
+Proof. exact oso_exactly_once. Qed.
+Print Assumptions C17_oso_exactly_once.
